@@ -20,7 +20,7 @@ add(
     "property-based testing (Hypothesis) against a list model of paths",
     "Generated segment pairs / order sequences / interface triples are run through paste_paths, "
     "Path.reverse, Path.copy, append/+=, check_interfaces and compared with a plain-list reference "
-    "model; sampled, not exhaustive.",
+    "model; extremes and classification are re-read after a frame of a copy was re-assigned (look, re-assign, look); empty paths; sampled, not exhaustive.",
     "Frames are System objects as engines/load_path build them; only attribute re-assignment (not in-place "
     "array mutation) is claimed for copy independence, as the statement says.",
 )
@@ -30,7 +30,8 @@ add(
     "property-based testing (Hypothesis) against a run-segmentation reference model; scripted random stream",
     "Generated order sequences (grid containing interface values, jumps over the region, constructive multi-excursion paths) "
     "are weighed by wirefence_weight_and_pick / compute_weight / calc_cv_vector / high_acc_swap and compared with a reference "
-    "written from the statement; time-reversal metamorphic relation; selection law checked exactly over a grid of scripted draws. Sampled.",
+    "written from the statement; time-reversal metamorphic relation; selection law checked exactly over a grid of scripted draws; frames 1 ulp / 1e-9 / 3e-8 "
+    "from an interface; the weight-vector and swap parts also run the same system translated along the order-parameter axis (cap, interfaces, lambda_-1 on 0.0). Sampled.",
     "compute_weight doubling only claimed for end points strictly outside the outer interfaces; ties u == cum/n accept either segment.",
 )
 add(
@@ -50,14 +51,14 @@ add(
     "Distance, Distancevel, Dihedral, Puckering, Velocity, Position are evaluated on generated configurations and on their images under "
     "rigid translation, per-atom box-vector shifts, proper rotations and velocity reversal (directly and through "
     "EngineBase.calculate_order with vel_rev from arrays and from the configuration file); values are also compared with closed forms; "
-    "3- vs 9-component boxes; minimum-image bound; bitwise no-mutation of the system. Sampled.",
-    "Orthogonal boxes; separations within 1e-6 L of exactly L/2 excluded from invariance clauses (rounding tie); degenerate "
-    "(collinear/planar) geometries avoided by construction.",
+    "3- vs 9-component boxes; minimum-image bound; bitwise no-mutation of the system; exactly planar trans / cis dihedrals (180 / 0 degrees). Sampled.",
+    "Orthogonal boxes; separations within 1e-6 L of exactly L/2 excluded from invariance clauses (rounding tie); collinear "
+    "geometries and planar rings avoided by construction.",
 )
 
 HIST = ("Histories are generated as plain data (lattice plug-in engine configuration: 2-7 interfaces, sh/wf moves, cap, 1..n-1 workers, "
         "single- and multi-engine layouts, delete_old, seeds, zero-swap probability; 1-3 process lifetimes with generated completion orders, "
-        "clean stops and kills) and executed by the real scheduler()/REPEX_state/run_md/PathStorage in forked children behind a "
+        "clean stops and kills; restarted lifetimes may ask for fewer additional steps than workers and may run on another worker count) and executed by the real scheduler()/REPEX_state/run_md/PathStorage in forked children behind a "
         "deterministic runner that owns the completion order; a reference model kept by the harness is compared after every event. Sampled. ")
 ENUM = ("In addition small systems (3-5 ensembles, 1-3 workers, sh-only / wf / zero-swap move sets) are explored exhaustively in memory: every "
         "scheduler draw (scripted rgen.choice/random), every completion order and every synthesised move outcome (reject / accept with each "
@@ -125,9 +126,11 @@ add(
     "(a) every combination of 3-5 interfaces, 1..n-1 workers, step counts W..W+6, restart point (clean stop or kill after k completions), "
     "extension steps..steps+W+2 and three completion-order policies is run through the real scheduler with a deterministic runner "
     "(thorough: full grid; quick: boundary subset): jobs issued = results consumed = requested moves per lifetime, step counter in the restart "
-    "file, nothing left in flight / in the restart record / in the runner, a finished run restarted does nothing. (b) the real aiorunner "
+    "file, nothing left in flight / in the restart record / in the runner, a finished run restarted does nothing; restarts on fewer / more workers; "
+    "idle slots keep paths with non-zero weight after every step. (b) the real aiorunner "
     "(asyncio thread + process pool) with generated task durations (ties), failing tasks, 1-4 workers and consumer lags: every unit executed "
-    "exactly once, every result or exception delivered exactly once to its own future, stop() returns. (c) real scheduler+aiorunner "
+    "exactly once, every result or exception delivered exactly once to its own future, stop() returns - also when everything is submitted at once and "
+    "stop() is called with work still queued. (c) real scheduler+aiorunner "
     "end-to-end vs the deterministic runner: identical files.",
     "The asyncio/process-pool interleaving of aiorunner is driven (durations, lags), not owned: an interleaving-specific lost wake-up could escape. "
     "Pool processes surviving stop() until interpreter exit are reported, not judged.",
@@ -140,7 +143,8 @@ add(
     "generated input (half-integer grid, so interface values and exact length limits are hit; the length draw is placed at n_old/n_new, "
     "n_old/(n_new+-1) and their float neighbours). Shooting is compared with an exact reference (accept/reject and order sequence, rational "
     "arithmetic for the threshold); wire fencing and swaps with the ensemble-membership predicate, weight>0, trajectory-piece adjacency and "
-    "frame-reference integrity; every rejection must leave the old path object, its frames and its files unchanged and run_md must keep it. Sampled.",
+    "frame-reference integrity; every rejection must leave the old path object, its frames and its files unchanged and run_md must keep it; the "
+    "shoot and wire-fencing parts also run translated copies of the system (exact: multiples of 1/2) that put lambda_-1, an interface or the cap on 0.0. Sampled.",
     "Old paths have interior frames strictly inside the interfaces; a value exactly on an interface counts as outside for an end point and inside "
     "for an interior frame; at a float-rounding tie of n_old/xi either rounding is accepted; wire-fencing trajectories cannot jump over [lambda_i, cap).",
 )
@@ -172,7 +176,8 @@ add(
     "C16",
     "property-based testing (Hypothesis) of modify_velocities on five engine classes built from generated input directories + statistical tests with harness-side unit constants",
     "CP2K, LAMMPS, GROMACS (infretis_genvel), ASE and TurtleMD engines are constructed from generated inputs (atom counts, element masses incl. "
-    "integer-typed masses, positions, old velocities, temperatures, zero_momentum settings, stream seeds); modify_velocities is checked per call with "
+    "integer-typed masses, positions, old velocities, temperatures, zero_momentum settings, stream seeds, ASE velocity-Verlet / Langevin with and without fixcm); "
+    "before the statistics a second engine of the same class, temperature and size but other masses draws in the same process; modify_velocities is checked per call with "
     "independent readers of the written frame (positions/box/identities preserved, source frame byte-identical, zero momentum, kin_new = 1/2 sum m "
     "v^2 of the written velocities, dek, reproducible from the job stream only, global RNG untouched) and statistically (per atom mean 0 and "
     "<m v^2> = kT within 6 SE, chi-square normality) with CODATA-style constants that are not taken from the engine modules. Sampled.",
@@ -185,7 +190,8 @@ add(
     "g96, extended-xyz and lammpstrj files are written by the harness and read by infretis, and written by infretis and read by independent "
     "parsers (values filling the fixed-width fields, shuffled ids, non-zero lower box bounds, 3/9-component boxes, multi-frame files, frame k "
     "extraction, velocity reversal changes velocities only); TRR frames from an independent struct encoder decode exactly for 2 byte orders x "
-    "2 precisions and identically across byte orders; mdp / CP2K / LAMMPS template editors are compared with reference edit models "
+    "2 precisions and identically across byte orders, also with velocity / force blocks in some frames only and triclinic boxes (all nine g96 BOX entries); "
+    "mdp / CP2K (incl. keywords repeated within a section) / LAMMPS template editors are compared with reference edit models "
     "(exactly the requested entries change; second application is a no-op; CP2K compared as unordered section trees). Sampled.",
     "Editors are driven with the engines' call patterns; velocities fit the 15-character g96 field with either sign; LAMMPS write_for_run consumes its variables, so idempotence means 'function of template and settings'.",
 )
@@ -195,7 +201,7 @@ add(
     "Configurations (move assignment, cap, workers, completion-order policy, restart plan incl. kills with jobs in flight) are run as 32 independent "
     "replicas through the real scheduler/run_md/PathStorage with the lattice-walk plug-in engine; the conditional crossing probabilities are "
     "estimated from the data file and restart file only and compared with (k+1)/(k+2) within 6 jackknife standard errors, with one re-test "
-    "(fresh seeds, doubled length, same sign required). quick: 4 configurations x 32 x 1500 steps; thorough: 28 configurations incl. all {sh,wf}^3 x 5000 steps.",
+    "(fresh seeds, doubled length, same sign required). One configuration is a translated copy of the lattice with the cap on 0.0. quick: 5 configurations x 32 x 1500 steps; thorough: 28 configurations incl. all {sh,wf}^3 x 5000 steps.",
     "Statistical: biases below ~6 SE (quick 0.03-0.07, thorough ~0.015-0.03) are not detected; small acceptance biases are C09's job.",
 )
 
@@ -205,7 +211,8 @@ add(
     "Valid lattice configurations are mutated in 0-2 fields (interfaces order/duplicates/count, workers, moves length, cap incl. 0.0 and wf-ensemble "
     "interfaces, lambda_-1 incl. 0, engine sections, quantis); invalid by the predicate => setup_config must raise TOMLConfigError (acceptance or any "
     "other exception is a violation); accepted => with constructed valid start paths setup_internal succeeds, diagonal weights non-zero, all first "
-    "picks succeed, a short run completes, and the restart file is a fixed point of setup_config's normalisation. Sampled.",
+    "picks succeed, the [0-] ensemble is set up for the configured lambda_-1 (any value, 0.0 included), an explicit ensemble_engines layout is what the ensembles "
+    "and first picks use, a short run completes, and the restart file is a fixed point of setup_config's normalisation. Sampled.",
     "A configuration valid by the statement may be rejected for reasons the statement does not list. Accepted quantis / lambda_-1 configurations are initialised but not run here (plug-in engine has no energies).",
 )
 
@@ -225,8 +232,8 @@ add(
     "fault enumeration: every main-process file-system effect of a target step is a crash point (byte-granular for file contents); recovery checked in fresh forks",
     "For generated scenarios (configurations x step kinds: sh/wf accept, reject, zero-swap accept/reject, accept with deletion; also after an "
     "earlier restart with jobs in flight) an interposer numbers every file-system effect of the main process inside treat_output (open-for-write, "
-    "content commit, move, remove, rmdir, makedirs, replace) in a dry run; then the process is killed before EVERY effect index (content commits: "
-    "0 bytes, a prefix, all but one byte), plus second crashes inside the recovery run. In fresh forks the restart must start and load every "
+    "content commit, move, remove, rmdir, every single mkdir, replace) in a dry run; then the process is killed before EVERY effect index (content commits: "
+    "0 bytes, a prefix, all but one byte), plus second crashes inside the recovery run and while the restart is being prepared (setup_config's repair of the data file). In fresh forks the restart must start and load every "
     "path with non-zero weight, re-issue the recorded in-flight jobs, continue to the requested steps keeping the per-step invariants of "
     "C04/C05/C14, list every replaced path exactly once in the data file and conserve the weights. Exhaustive over single crash points of the "
     "chosen target steps; scenarios are sampled.",
